@@ -63,6 +63,15 @@ func (c10Sys) Root() *c10State {
 		s.b[i] = c10Bridge{Next: 1, Pairs: map[string]string{}}
 	}
 	s.b[0].Exists = true
+	// bridge 1 is not new: it has taken eight deposits already, so the histories cross the point where its
+	// sequence needs a second digit (bridges 2 and 3 start at 1)
+	for i := 0; i < 8; i++ {
+		if res := w.Deliver(w.Ctx, ophosttypes.NewMsgInitiateTokenDeposit(world.Addr("alice").String(), 1, "l2addr", world.Coin("uxx", 0), nil)); !res.OK() {
+			panic(res.Err)
+		}
+	}
+	s.b[0].Next = 9
+	s.b[0].Pairs[ref.L2Denom(1, "uxx")] = "uxx"
 	return s
 }
 
